@@ -186,6 +186,10 @@ impl Allocator {
     }
 
     fn manage_state(gc: &mut BoaGc) {
+        #[cfg(boa_verif)]
+        if verif::on_allocation() {
+            Collector::collect(gc);
+        }
         if gc.runtime.bytes_allocated > gc.config.threshold {
             Collector::collect(gc);
 
@@ -553,4 +557,41 @@ pub fn has_weak_maps() -> bool {
 
         !gc.weak_maps.is_empty()
     })
+}
+
+/// Verification hooks (only with `--cfg boa_verif`).
+#[cfg(boa_verif)]
+#[allow(missing_docs, clippy::missing_panics_doc)]
+pub mod verif {
+    use std::cell::{Cell, RefCell};
+
+    #[derive(Debug, Clone, Default)]
+    pub enum Schedule {
+        #[default]
+        Off,
+        Every(u64),
+        At(Vec<u64>),
+    }
+    thread_local! {
+        static COUNT: Cell<u64> = const { Cell::new(0) };
+        static SCHEDULE: RefCell<Schedule> = const { RefCell::new(Schedule::Off) };
+    }
+    pub fn set_schedule(s: Schedule) { SCHEDULE.with(|c| *c.borrow_mut() = s); }
+    pub fn reset_alloc_count() { COUNT.with(|c| c.set(0)); }
+    #[must_use]
+    pub fn alloc_count() -> u64 { COUNT.with(Cell::get) }
+    pub(crate) fn on_allocation() -> bool {
+        let n = COUNT.with(|c| { let n = c.get(); c.set(n + 1); n });
+        SCHEDULE.with(|s| match &*s.borrow() {
+            Schedule::Off => false,
+            Schedule::Every(k) => *k != 0 && n % *k == 0,
+            Schedule::At(v) => v.binary_search(&n).is_ok(),
+        })
+    }
+    #[derive(Debug, Clone, Copy, PartialEq, Eq)]
+    pub struct Stats { pub strongs: usize, pub weaks: usize, pub weak_maps: usize, pub bytes: usize, pub collections: usize }
+    #[must_use]
+    pub fn stats() -> Stats {
+        super::BOA_GC.with(|gc| { let gc = gc.borrow(); Stats { strongs: gc.strongs.len(), weaks: gc.weaks.len(), weak_maps: gc.weak_maps.len(), bytes: gc.runtime.bytes_allocated, collections: gc.runtime.collections } })
+    }
 }
